@@ -18,6 +18,7 @@ import (
 	"log/slog"
 	"math"
 	"net/http"
+	"os"
 	"strconv"
 	"strings"
 	"testing"
@@ -59,6 +60,17 @@ const (
 	verifStreamUin  = 37
 	verifStreamUout = 11
 )
+
+// verifStreamWatchdog is how long a call may take before it is recorded as "Hang". A scenario needs
+// milliseconds; the default is generous so that a loaded machine cannot turn slowness into an alarm.
+func verifStreamWatchdog() time.Duration {
+	if s := os.Getenv("VERIF_C13_WATCHDOG_S"); s != "" {
+		if n, err := strconv.Atoi(s); err == nil && n > 0 {
+			return time.Duration(n) * time.Second
+		}
+	}
+	return 30 * time.Second
+}
 
 // verifStreamEnc maps a string to pure ASCII, injectively and compatibly with concatenation
 // (enc(a+b) = enc(a)+enc(b)), so that TLC compares exactly what Go saw whatever the JVM's charset is.
@@ -577,7 +589,7 @@ func verifStreamRunBuffered(tr *Translator, sc verifStreamScn, items []verifStre
 	var r res
 	select {
 	case r = <-done:
-	case <-time.After(30 * time.Second):
+	case <-time.After(verifStreamWatchdog()):
 		b.Emit("Hang", "where", "buffered")
 		return
 	}
@@ -659,7 +671,7 @@ func verifStreamRunStream(tr *Translator, sc verifStreamScn, items []verifStream
 	hung := false
 	select {
 	case r = <-done:
-	case <-time.After(30 * time.Second):
+	case <-time.After(verifStreamWatchdog()):
 		hung = true
 	}
 	pr.CloseWithError(io.ErrClosedPipe) // release the feeder whatever happened
